@@ -40,6 +40,8 @@ type RuleSpec struct {
 	Invalid    string            `json:"invalid,omitempty"` // why the reference recogniser rejects it ("" = valid)
 	Conflict   bool              `json:"conflict,omitempty"` // deliberately the same verb+template as an earlier rule of another method
 	Long       bool              `json:"long,omitempty"`     // well-formed but beyond larking's documented token budget: accepted or refused with an error, never a panic
+	StarRun    bool              `json:"star_run,omitempty"` // a segment of three or more stars: malformed under the strict reading, a literal under the RFC 3986 one - either verdict (Long is set too); NegPath must not reach the method under either
+	NegPath    string            `json:"neg_path,omitempty"`
 	Wild       bool              `json:"wild,omitempty"`     // the rule selects its method as "pkg.Service.*" (services with one method only: the same selection as the exact name)
 	Path       string            `json:"path,omitempty"`    // a path instantiated from the template
 	Want       map[string]string `json:"want,omitempty"`    // field path -> text the path binds to it
@@ -533,6 +535,9 @@ func genC16(r *core.Rand, run int) *MuxScenario {
 				}
 				rule.Additional = []RuleSpec{{Verb: "custom:*", Template: rule.Template, Path: rule.Path, Want: rule.Want, ProbeVerb: pv}}
 			}
+		case 13: // a run of stars as a segment (round 13): refused, or a literal - never a wildcard
+			pre := "/sr" + strconv.Itoa(i+1) + r.PickS("", "/lit", "/a/b")
+			rule = RuleSpec{Selector: rule.Selector, Verb: "get", Template: pre + "/" + strings.Repeat("*", 3+r.Intn(3)), Long: true, StarRun: true, NegPath: pre + "/zz9"}
 		case 6: // re-declare the implicit /Service/Method path for the same method
 			rule = RuleSpec{Selector: rule.Selector, Verb: "post", Body: "*", Template: "/" + m.Service + "/" + m.Name, Path: "/" + m.Service + "/" + m.Name, Want: map[string]string{}}
 			switch r.Intn(4) {
@@ -753,6 +758,12 @@ func (m *ruleModel) probes() []ReqSpec {
 			Raw: &RawProbe{Verb: verb, Path: b.Path, Selector: b.Selector, Want: b.Want, HasBody: b.Body != ""}}
 		out = append(out, sp)
 	}
+	for _, rule := range m.sc.Rules {
+		if rule.StarRun && m.accepted[serviceOf(rule.Selector)] {
+			out = append(out, ReqSpec{Proto: "http", Codec: "json", Method: "raw", Weight: 2,
+				Raw: &RawProbe{Verb: "GET", Path: rule.NegPath, Selector: rule.Selector, Negative: true}})
+		}
+	}
 	for _, cm := range c16Methods {
 		if m.accepted[cm.Service] && !m.hasLong(cm.Service) {
 			out = append(out, ReqSpec{Proto: "http", Codec: "json", Method: "raw", Weight: 2,
@@ -770,6 +781,7 @@ type RawProbe struct {
 	Selector string            `json:"selector"`
 	Want     map[string]string `json:"want,omitempty"`
 	HasBody  bool              `json:"has_body,omitempty"`
+	Negative bool              `json:"negative,omitempty"` // the path must NOT reach Selector's method (judged only if its service was accepted)
 }
 
 func rawMethodInfo(p *RawProbe) *methodInfo {
@@ -901,6 +913,16 @@ func oracleRules(mr *muxRun, res *RunResult) *Violation {
 				continue
 			}
 			p := rs.spec.Raw
+			if p.Negative {
+				// the literal reading of a star run matches the stars themselves
+				// only; the strict one refuses the rule (then nothing is live)
+				nfull := "/" + serviceOf(p.Selector) + "/" + p.Selector[len(serviceOf(p.Selector))+1:]
+				if svc := serviceOf(p.Selector); model.accepted[svc] && !model.tainted[svc] && len(rs.servedMethods) > 0 && rs.servedMethods[0] == nfull {
+					return violationf(prop, "template-matches-too-much", "star-run", "after registration %d (%s): %s %s reached %s through a rule whose last segment is a run of stars (refused, or a literal - not a wildcard)\nrules: %s", k, rr.Op.Service, p.Verb, p.Path, nfull, rulesString(sc.Rules))
+				}
+				cnt[cProbeSkipped]++
+				continue
+			}
 			if svc := serviceOf(p.Selector); !model.accepted[svc] || model.tainted[svc] || model.hasLong(svc) {
 				// generated on the assumption that an unpredicted verdict was
 				// "accepted"; what happened says otherwise
